@@ -2,6 +2,6 @@ SPECIFICATION BSpec
 CONSTANTS InitDelay = 5
           MaxDelay = 600
           JitterPct = 10
-          MaxFails = 100
+          MaxFails = 14
 INVARIANTS BackoffBounded BackoffGrows
 PROPERTIES BackoffStep
